@@ -135,7 +135,7 @@ func genSegment(rng *common.RNG, nw int) []byte {
 			}
 		}
 	}
-	return s[:nw*8 : nw*8]
+	return s[: nw*8 : nw*8]
 }
 
 // genMessage returns the segments of one message: 1..40 segments, empty
